@@ -66,7 +66,7 @@ class StartupProp(Prop):
                 ev = ev[:later] + [{"l": ["instantOver"], "t": ev[later]["t"]}] + ev[later:]
         from .impl.startup import expand_prog
 
-        return {"kind": "startup", "prog": expand_prog(case["prog"]), "timeout": True, "trace": [e["l"] for e in ev]}
+        return {"kind": "startup", "prog": expand_prog(case["prog"], for_model=True), "timeout": True, "trace": [e["l"] for e in ev]}
 
     def compare(self, case, impl, model):
         if "root_exception" in impl:
